@@ -8,7 +8,7 @@ RULE = 'map-style and iterator-style datasets with 1-3 failing items / failing c
 EXPLANATION = 'Lean: TDV.SP.error_position_* and TDV.MP.error_position_partial (+ refuted full statement for interval>1 = known finding). Tie: SP K-D / MP K-T with failing tasks. Oracle: catch-and-continue consumer on the real loader.'
 ASSUMPTIONS = ["worker processes are virtual processes under harness/vsched.py (real _worker_loop, deep-copied arguments, pickled queue payloads)"]
 
-PARTS = [_compose.ko_part("ko", sdl_ko.gen_c10, sdl_ko.check_c10, 200, 4000, known={"error-breaks-snapshot-alignment": sdl_ko.k_c10_interval})]
+PARTS = [_compose.ko_part("ko", sdl_ko.gen_c10, sdl_ko.check_c10, 200, 4000, known=None)]
 from . import sp_kd
 PARTS.append(_compose.Part("sp_kd", lambda ctx: sp_kd.run_kd(ctx, 500, 5000), sp_kd.replay_kd, theorems=sp_kd.THEOREMS_C10, modules=sp_kd.LEAN_MODULES))
 try:
